@@ -13,25 +13,11 @@ bit 63, so the arithmetic shift is a logical one, `<< 5` does not wrap, and the 
 agree with the `Nat` operations of the model.  It holds for ARBITRARY bytes (not only symbols < 32).
 -/
 import Iota.Gen.Bech32
+import Iota.Tie.BV
 import Iota.Model.Bech32
 
 namespace Iota.Tie.Bech32Code
 open Iota
-
-/-! ### the coercion -/
-
-/-- bytes of the model as bytes of the translated code -/
-def bv (l : List UInt8) : List (BitVec 8) := l.map UInt8.toBitVec
-
-theorem ofBitVec_bv (l : List UInt8) : (bv l).map UInt8.ofBitVec = l := by
-  induction l with
-  | nil => rfl
-  | cons a l ih => simpa [bv] using ih
-theorem bv_ofBitVec (l : List (BitVec 8)) : bv (l.map UInt8.ofBitVec) = l := by
-  induction l with
-  | nil => rfl
-  | cons a l ih => simpa [bv] using ih
-theorem bv_append (a b : List UInt8) : bv (a ++ b) = bv a ++ bv b := by simp [bv]
 
 /-! ### `gen` -/
 
